@@ -38,6 +38,10 @@ check("C05", "model_checking", "B", "explicit-state breadth-first search over la
       "All layer histories up to the depth bound over the operation alphabet (write each package subset, delete, delete parent, touch, empty history entry; one/two files; one/two extractors) are explored breadth-first with state deduplication on (views, diffs); every transition executes the real image loader and tracer.",
       "Trusted: the state key captures everything attribution can depend on (sequence of per-view file contents, per-layer file-in-diff, empty-layer flags); oracle reads the implementation's own views (C04 checks those). Outside: depth > 5/7, >2 files, >3 packages per file, symlinked package files.", "DESIGN §5 C05")
 
+check("C20", "exploration", "E", "exhaustive enumeration of every ordered list of scripted detectors x every inventory on the real Scanner.Scan, against a reference model of the detector run",
+      "The property's quantifier (0..4 fake detectors, finding lists with shared/distinct ids, equal/unequal bodies, missing advisories, errors; arbitrary inventories incl. packages without PURL) is enumerated completely up to lists of 2 full scripts / 3-4 short scripts.",
+      "Trusted: 60-line reference model. Don't-care: overall status when a detector errs but findings are consistent.", "DESIGN §5 C20")
+
 ALL = ["C%02d" % i for i in range(1, 21)]
 for p in ALL:
     if p not in CHECKS:
